@@ -5,8 +5,7 @@ Property theorems only; helper lemmas are in `Lemmas/FwDialogueText.lean` (split
 numerals and `int()`, `strip`, the line reader), `Lemmas/FwDialogueRoundtrip.lean` (one line of
 each kind), `Lemmas/FwDialoguePlan.lean` (the whole dialogue), `Lemmas/FwDialogueTrunc.lean`.
 -/
-import SshuttleModel.Lemmas.FwDialogueTrunc
-import SshuttleModel.Lemmas.FwDialogueHostMap
+import SshuttleModel.Lemmas.FwDialogueWhole
 
 namespace Sshuttle.FwDialogue
 
@@ -258,6 +257,79 @@ theorem C13_truncation_midline_false :
     hostLoop (rawLines 128 false (HOST_ ++ [110, 44, 49, 46, 50])) = ([([110], [49, 46, 50])], .eof) ∧
     hostLoop (rawLines 128 true (HOST_ ++ [110, 44, 49, 46, 50])) = ([], .eof) := by
   decide
+
+/-! ## 5. The whole dialogue -/
+
+/-- The reader as the source has it now gives an unfinished last line up. -/
+theorem C13_pin_reader_drops : Gen.C13.HELPER_DROPS_UNFINISHED_LINE = true := by decide
+
+/-- **The whole dialogue, one round trip.** For every plan in the writer's domain (any subnets
+of both families with all widths and port ranges, name servers, ports, UDP, user/group — id 0
+included — mark, pid), every sequence of host updates over the allowed alphabet, every size
+`max ≥ 1` of the pieces `readline(max)` hands out (so: however the lines are cut into reads;
+128 is one instance) and either treatment of an unfinished last line: the helper, fed the bytes
+the client wrote, holds exactly the plan when it sets up, receives exactly the updates, in order,
+ends at end of input, and its host map gives for every name the last address announced. -/
+theorem C13_dialogue_roundtrip (max : Nat) (hmax : 0 < max) (drops : Bool) (p : Plan) (hw : PlanWf p)
+    (hosts : List (Bytes × Bytes)) (hh : ∀ h ∈ hosts, HostOk h) :
+    ∃ ls hl, render p = some ls ∧ hosts.mapM (fun h => renderHost h.1 h.2) = some hl ∧
+      parse (rawLines max drops (ls.flatten ++ hl.flatten)) = .ran (planSetup p) hosts .eof ∧
+      ∀ n, mapLookup (hostmapOf hosts) n = lastFor hosts n := by
+  refine ⟨planLines p, hostLines hosts, render_ok p hw, mapM_renderHost hosts hh, ?_, ?_⟩
+  · have hlines : ∀ l ∈ planLines p ++ hostLines hosts, IsLine l := by
+      intro l hl
+      rcases List.mem_append.mp hl with h | h
+      · exact planLines_isLine p hw l h
+      · exact hostLines_isLine hosts hh l h
+    have := rawLines_lines max drops hmax (planLines p ++ hostLines hosts) [] hlines (by simp)
+    simp only [List.append_nil, List.flatten_append, true_or, if_true] at this
+    rw [this, parse_planLines p hw, hostLines, hostLoop_hosts hosts hh]
+  · intro n
+    unfold hostmapOf
+    rw [mapLookup_fold]
+    simp [mapLookup_nil]
+
+/-- **Every byte prefix of the dialogue.** Cut the bytes the client wrote after any number `k`
+of bytes — after a line, inside a line, inside a 128-byte piece, inside the `GO` line, inside a
+`HOST` line — and end the input there. The helper (for every piece size `max ≥ 1`; reader giving
+an unfinished line up, as the source does: `C13_pin_reader_drops`) then either returns before
+anything, or raises before the `try:` block (nothing set up), or has set up with **exactly the
+complete plan** and has received exactly the first `j` host updates — a prefix of the history,
+whose last-writer map it holds (`C13_hostmap_last_writer`) — and leaves through end of input.
+It never acts on partial data: no partial plan, no truncated pid, name or address. With the
+whole stream (`k ≥ length`) it has all updates. -/
+theorem C13_dialogue_prefix (max : Nat) (hmax : 0 < max) (p : Plan) (hw : PlanWf p)
+    (hosts : List (Bytes × Bytes)) (hh : ∀ h ∈ hosts, HostOk h) (k : Nat) :
+    parse (rawLines max true ((planLines p ++ hostLines hosts).flatten.take k)) = .noInput ∨
+    (∃ e, parse (rawLines max true ((planLines p ++ hostLines hosts).flatten.take k)) = .before e) ∨
+    (∃ j, j ≤ hosts.length ∧ (k ≥ (planLines p ++ hostLines hosts).flatten.length → j = hosts.length) ∧
+      parse (rawLines max true ((planLines p ++ hostLines hosts).flatten.take k)) =
+        .ran (planSetup p) (hosts.take j) .eof) := by
+  have hlines : ∀ l ∈ planLines p ++ hostLines hosts, IsLine l := by
+    intro l hl
+    rcases List.mem_append.mp hl with h | h
+    · exact planLines_isLine p hw l h
+    · exact hostLines_isLine hosts hh l h
+  obtain ⟨m, _, hm, hfull⟩ := rawLines_take max hmax (planLines p ++ hostLines hosts) k hlines
+  rw [hm]
+  rcases parse_dialogue_take p hw hosts hh m with h | h | ⟨j, hj, hjf, h⟩
+  · exact Or.inl h
+  · exact Or.inr (Or.inl h)
+  · exact Or.inr (Or.inr ⟨j, hj, fun hk => hjf (by rw [hfull hk]; exact Nat.le_refl _), h⟩)
+
+/-- The same for the helper as the source has it (128-byte pieces, unfinished line given up). -/
+theorem C13_helper_prefix (p : Plan) (hw : PlanWf p) (hosts : List (Bytes × Bytes))
+    (hh : ∀ h ∈ hosts, HostOk h) (k : Nat) :
+    helper ((planLines p ++ hostLines hosts).flatten.take k) = .noInput ∨
+    (∃ e, helper ((planLines p ++ hostLines hosts).flatten.take k) = .before e) ∨
+    (∃ j, j ≤ hosts.length ∧
+      helper ((planLines p ++ hostLines hosts).flatten.take k) = .ran (planSetup p) (hosts.take j) .eof) := by
+  unfold helper helperLines
+  rw [C13_pin_reader_drops]
+  rcases C13_dialogue_prefix Gen.C13.READLINE_MAX C13_pin_readline.1 p hw hosts hh k with h | h | ⟨j, hj, _, h⟩
+  · exact Or.inl h
+  · exact Or.inr (Or.inl h)
+  · exact Or.inr (Or.inr ⟨j, hj, h⟩)
 
 /-- Malformed input, whatever it is: the helper's outcome is one of *return before anything*,
 *an exception before the `try:` block* (nothing set up), or *set-up followed by the loop that
